@@ -16,7 +16,8 @@ import (
 func init() { families["c14"] = runC14 }
 
 // Case: "<fileName-hex> <maxAge> <name-hex>:<kind>:<offsetSeconds> ..."
-//   kind 0 regular file, 1 directory, 2 symlink to a regular file outside the directory
+//   kind 0 regular file, 1 directory, 2 symlink to a regular file outside the directory,
+//   3 directory that itself contains an expired regular file named like one of this appender's own files (and a nested one below)
 // Observation: sorted hex names of the survivors.
 func runC14(cases []string, out *bufio.Writer, _ []string) {
 	base, err := os.MkdirTemp("/var/tmp", "verif-c14-")
@@ -32,6 +33,7 @@ func runC14(cases []string, out *bufio.Writer, _ []string) {
 		os.Mkdir(dir, 0755)
 		age, _ := strconv.Atoi(f[1])
 		now := time.Now()
+		var inners []string
 		for _, e := range f[2:] {
 			p := strings.Split(e, ":")
 			name := unhex(p[0])
@@ -49,6 +51,15 @@ func runC14(cases []string, out *bufio.Writer, _ []string) {
 				os.Chtimes(path, mt, mt)
 			case "2":
 				os.Symlink(target, path)
+			case "3":
+				os.MkdirAll(filepath.Join(path, "deeper"), 0755)
+				old := now.Add(-800 * time.Hour)
+				for _, inner := range []string{filepath.Join(path, unhex(f[0])+".20200101000000"), filepath.Join(path, "deeper", unhex(f[0])+".20190101000000")} {
+					os.WriteFile(inner, []byte("x"), 0644)
+					os.Chtimes(inner, old, old)
+					inners = append(inners, inner)
+				}
+				os.Chtimes(path, mt, mt)
 			}
 		}
 		a := &log.RollingFileAppender{FileDir: dir, FileName: unhex(f[0]), MaxAge: int32(age)}
@@ -63,6 +74,11 @@ func runC14(cases []string, out *bufio.Writer, _ []string) {
 			names = append(names, tohex(e.Name()))
 		}
 		sort.Strings(names)
+		for _, inner := range inners { // files below the log directory are not this appender's
+			if _, err := os.Stat(inner); err != nil {
+				names = append(names, "DELETED-BELOW:"+tohex(strings.TrimPrefix(inner, dir)))
+			}
+		}
 		fmt.Fprintln(out, strings.Join(names, " "))
 		os.RemoveAll(dir)
 	}
